@@ -98,6 +98,11 @@ func contractHasTag(c *Contract, p string) bool {
 	if c.MapInv != nil && hasTag(c.MapInv.Tags, p) {
 		return true
 	}
+	for _, ac := range c.AtCalls {
+		if hasTag(ac.Tags, p) {
+			return true
+		}
+	}
 	for _, nc := range c.NeedsClean {
 		if hasTag(nc.Tags, p) {
 			return true
